@@ -203,7 +203,7 @@ def run_law(rs, ctx, j):
             if kind == "sm":
                 # a shifted mean is the mean plus the constant only up to the rounding of numbers of the constant's size;
                 # Softmax divides that rounding error by tau
-                tol += 16 * float(np.spacing(abs(c) + 16.0)) / float(cfg["lp"]["tau"])
+                tol += 16 * float(np.spacing(abs(c) + 16.0 + max(abs(v) for v in data["r"]))) / float(cfg["lp"]["tau"])
             if abs(vb - want) > tol:
                 ctx.violation("%s: rewards %s: arm %r expectation %r, the law predicts %r (original %r)" % (
                     kind, "x %g" % c if kind == "lingreedy" else "+ %g" % c, a, vb, want, va), wit, kind="law|" + kind)
